@@ -434,6 +434,12 @@ let exec (s : t) (verbose : bool) (f : string array) (obs : string option) : str
        (match e with None -> "ok " ^ vl | Some e -> "err " ^ eerr_name e) ^ events_str evs
      | _ -> o)
   | "bold" -> "err committed"   (* the handle of an earlier, committed batch stays dead *)
+  | "closenoflush" ->
+    (* judged on the implementation side (a Close that cannot flush reports it); the database is left closed *)
+    (match obs with
+     | Some o when String.length o >= 4 && String.sub o 0 4 = "skip" -> "skip"
+     | Some o -> s.db <- None; s.batch <- None; obs_head o
+     | None -> s.db <- None; s.batch <- None; "err io")
   | "mergeclose" | "mergebatchcrash" | "closebg" ->
     (* judged on the implementation side only (reference mapping); the database is left closed *)
     s.db <- None; s.batch <- None; "done"
